@@ -22,13 +22,16 @@ def explore(res, scale=1, seed=None):
     # generated type strings (zones, precisions, decimal class boundaries, awkward enum names, nestings to depth 4);
     # first and second block of generated inferable schemas through Results.Auto(); model = GlueAuto (AutoClass.v + GlueRes)
     colfam.run_family(res, "c01auto", BUDGET[res.tier] * scale // 2, seed, builds=("default",), glue="Auto", gluemod="GlueAuto")
+    # LowCardinality over floats (NaN never equals itself as a map key, +0 = -0): several encodes of one column object,
+    # read back with the library's decoder (direct oracle; the column model has no floats)
+    colfam.run_direct(res, "c01lcf", 150 * scale, seed, builds=("default",))
     res.extra["rule"] = ("catalogue of real column kinds (harness/c14.go + c01.go) x row counts 0..257 (65534..65537 dictionary "
                          "boundary once per run) filled by reflection; each case: real Prepare+EncodeState+EncodeColumn into a "
                          "non-empty buffer, real decode into a fresh column with trailing bytes; model runs the same case from the "
                          "dumped struct contents; non-trivial = distinct case whose implementation result is a value")
     res.assumptions = [
         "little-endian host for the unsafe codecs (their build constraint)",
-        "LowCardinality over Float / Nullable / Date elements is outside the modelled nestings (Go map-key equality differs from bit equality; lossy element conversion)",
+        "LowCardinality over Float / Nullable / Date elements is outside the modelled nestings (Go map-key equality differs from bit equality; lossy element conversion); LowCardinality(Float32/64) is run by the direct-oracle family c01lcf",
         "block level: ColumnType.Conflicts is reflexive (proved in C19) and a typed target adopts its own type string",
         "inference path: time.LoadLocation and strings.ToLower are parameters (zone, tl); a zone is in the class when LoadLocation finds it under the very name it prints",
         "inference path: ColFixedStr{Size: n} of a generated size comes back as ColFixedStrN (other in-memory representation): tied by correspondence, outside the theorems",
